@@ -62,8 +62,9 @@ func For(prop string) []Harness {
 // contract, which C11 excludes.
 // The C16 harnesses publish the combinator's result to already-running observer tasks through a plain
 // harness variable, which the detector rightly sees as a harness-side race on the context's memory.
+// C05/waitcond-rlocker shows the known finding D6 (a C05 matter, listed for C05 only).
 var raceSkip = map[string]bool{"C08/misuse": true, "C08/misuse-literal": true,
-	"C16/combine": true, "C16/conflated": true, "C16/chain": true}
+	"C16/combine": true, "C16/conflated": true, "C16/chain": true, "C05/waitcond-rlocker": true}
 
 func Props() []string {
 	seen := map[string]bool{}
